@@ -877,6 +877,9 @@ func (e *Exec) quickValid(st *State, g *Term) bool {
 	asserts := append(append([]*Term{}, st.PC...), e.C.Not(g))
 	script := e.C.Script(e.W.Prelude, asserts, nil)
 	res := e.W.PF.Quick(script, 2.0)
+	if res.Status != "sat" && res.Status != "unsat" {
+		res = e.W.PF.Quick(script, 10.0)
+	}
 	debugf("quick %s %s %.2fs size=%d", res.Status, res.Solver, res.TimeS, len(script))
 	return res.Status == "unsat"
 }
@@ -920,7 +923,13 @@ func (e *Exec) quickValidMany(st *State, goals []*Term) []bool {
 		go func() {
 			defer wg.Done()
 			defer func() { <-sem }()
-			res[i] = e.W.PF.Quick(scripts[i], 2.0).Status == "unsat"
+			r := e.W.PF.Quick(scripts[i], 2.0)
+			if r.Status != "sat" && r.Status != "unsat" {
+				// undecided within the short budget (a loaded machine, typically): one longer attempt, so that
+				// which invariants are found does not depend on the load
+				r = e.W.PF.Quick(scripts[i], 10.0)
+			}
+			res[i] = r.Status == "unsat"
 		}()
 	}
 	wg.Wait()
@@ -954,7 +963,11 @@ func (e *Exec) quickValidEach(sts []*State, goals []*Term) []bool {
 		go func() {
 			defer wg.Done()
 			defer func() { <-sem }()
-			res[i] = e.W.PF.Quick(scripts[i], 2.0).Status == "unsat"
+			r := e.W.PF.Quick(scripts[i], 2.0)
+			if r.Status != "sat" && r.Status != "unsat" {
+				r = e.W.PF.Quick(scripts[i], 10.0)
+			}
+			res[i] = r.Status == "unsat"
 		}()
 	}
 	wg.Wait()
